@@ -1,8 +1,16 @@
 #!/bin/sh
-# usage: evalmut.sh <ID> <patch> [tier] [only-regex]   -> applies the patch in /tmp/mut/eval, runs the check against it, restores
-ID=$1; PATCH=$2; TIER=${3:-quick}; ONLY=${4:-.}
-git -C /tmp/mut/eval checkout -q -- . && git -C /tmp/mut/eval apply "$PATCH" || { echo "APPLY FAILED $PATCH"; exit 9; }
-VP_REPO=/tmp/mut/eval /verif/vcheck run $ID --tier $TIER --only "$ONLY" --quiet > /tmp/mut/eval_$ID.$TIER.log 2>&1
+# usage: evalmut.sh <ID> <patch> [tier] [only-regex]
+# Applies a seeded change in a scratch worktree of /repo (never in /repo itself), runs the property's check against it
+# (VP_REPO), prints the outcome and removes the worktree.  --only keeps the evidence file of the real tree untouched.
+ID=$1; PATCH=$(readlink -f "$2"); TIER=${3:-quick}; ONLY=${4:-.}
+WT=$(mktemp -d /tmp/vp-evalmut.XXXXXX); rmdir "$WT"
+git -C /repo worktree add -q "$WT" HEAD || exit 9
+trap 'git -C /repo worktree remove --force "$WT" >/dev/null 2>&1' EXIT
+git -C "$WT" apply "$PATCH" || { echo "APPLY FAILED $PATCH"; exit 9; }
+LOG=$(mktemp /tmp/vp-evalmut-log.XXXXXX)
+VP_REPO="$WT" /verif/vcheck run "$ID" --tier "$TIER" --only "$ONLY" --quiet > "$LOG" 2>&1
 rc=$?
-git -C /tmp/mut/eval checkout -q -- .
-echo "$ID $TIER rc=$rc $(grep -c '^VIOLATION' /tmp/mut/eval_$ID.$TIER.log) violations, $(grep -c '^INCONCLUSIVE' /tmp/mut/eval_$ID.$TIER.log) inconclusive; $(tail -n 1 /tmp/mut/eval_$ID.$TIER.log | cut -c1-150)"
+echo "$ID $TIER rc=$rc $(grep -c '^VIOLATION' "$LOG") violations, $(grep -c '^INCONCLUSIVE' "$LOG") inconclusive; $(tail -n 1 "$LOG" | cut -c1-150)"
+grep '^VIOLATION' "$LOG" | head -3 | cut -c1-300
+rm -f "$LOG"
+exit $rc
